@@ -37,6 +37,13 @@ QUALIFIER_SITES = [
     ("runners.sync.executors.graph_node.SyncGraphNodeExecutor.__call__", "node", {}, {"inputs": OUTER}, {"result"}),
     ("runners.async_.executors.graph_node.AsyncGraphNodeExecutor.__call__", "node", {}, {"inputs": OUTER}, {"result"}),
     ("runners.async_.executors.graph_node.AsyncGraphNodeExecutor._handle_nested_result", "node", {}, {}, {"result"}),
+    # callable nodes: current input names vs the function's own parameter names
+    ("runners.async_.executors.interrupt_node.AsyncInterruptNodeExecutor.__call__", "node", {}, {"inputs": OUTER}, set()),
+    ("runners.async_.executors.interrupt_node._call_handler", "node", {}, {"input_values": OUTER}, set()),
+    ("runners.async_.executors.function_node.AsyncFunctionNodeExecutor._execute", "node", {}, {"inputs": OUTER}, set()),
+    ("runners.sync.executors.function_node.SyncFunctionNodeExecutor.__call__", "node", {}, {"inputs": OUTER}, set()),
+    ("runners._shared.gate_execution.execute_ifelse", "node", {}, {"inputs": OUTER}, set()),
+    ("runners._shared.gate_execution.execute_route", "node", {}, {"inputs": OUTER}, set()),
 ]
 GN_PARAM_SEEDS = {"param": OUTER, "output": OUTER, "params": OUTER, "clone": OUTER}
 GN_KEY_SEEDS = {"map_inputs_to_params": {"inputs": OUTER}, "map_outputs_from_original": {"outputs": INNER}}
@@ -115,28 +122,7 @@ def run(ctx) -> None:
     rep.add("C06.R3", f"{mtf.qname}:delegates", ok, mtf.loc(), "delegates to node.map_inputs_to_params(inputs)" if ok else "helper no longer delegates to the node's own translator")
 
     # ---- R4 ---------------------------------------------------------------------
-    gn = db.cls("nodes.graph_node.GraphNode")
-    wi = gn.methods.get("with_inputs")
-    mo = gn.methods.get("map_over")
-    if wi is None or mo is None:
-        raise AnalysisError("GraphNode.with_inputs / map_over vanished")
-    validated = set()
-    for n in walk_local(mo.node):
-        if isinstance(n, ast.Assign):
-            for t in n.targets:
-                if isinstance(t, ast.Attribute) and t.attr in ("_map_over", "_clone"):
-                    validated.add(t.attr)
-    for a in sorted(validated):
-        rewritten = False
-        for n in walk_local(wi.node):
-            if isinstance(n, ast.Assign) and any(isinstance(t, ast.Attribute) and t.attr == a for t in n.targets):
-                v = n.value
-                if isinstance(v, ast.ListComp) and isinstance(v.elt, ast.Call) and isinstance(v.elt.func, ast.Attribute) and v.elt.func.attr == "get" and len(v.elt.args) == 2 and src(v.elt.args[0]) == src(v.elt.args[1]):
-                    # the mapping is the one applied to the inputs
-                    m = v.elt.func.value
-                    calls = [c for c in walk_local(wi.node) if isinstance(c, ast.Call) and isinstance(c.func, ast.Attribute) and c.func.attr == "_with_renamed" and len(c.args) == 2 and src(c.args[1]) == src(m)]
-                    rewritten = bool(calls)
-        rep.add("C06.R4", f"GraphNode.with_inputs:{a}", rewritten, wi.loc(), f"{a} is rewritten with the mapping applied to the inputs" if rewritten else f"{a} is validated against the inputs in map_over but not rewritten in with_inputs: after a rename it names inputs that no longer exist")
+    check_map_lists_follow_renames(ctx, "C06.R4")
 
     # ---- R5 ---------------------------------------------------------------------
     wr = db.func("nodes.base.HyperNode._with_renamed")
@@ -180,6 +166,35 @@ def run(ctx) -> None:
                 rep.add("C06.R7", f"{f.qname}", filt, f"{f.module.rel}:{n.lineno}", "inversion is restricted to the node's current names" if filt else "inverts the reverse rename map including abandoned intermediate names: after r->x, x->z, z->x the stale entry wins and values are published under a name the node no longer has")
     if n_inv == 0:
         rep.ok("C06.R7", "no-inversion-sites", "src/hypergraph/nodes:1", "no function inverts a reverse rename map (positive example checked in the self-test)")
+
+
+
+def check_map_lists_follow_renames(ctx, rule: str) -> None:
+    """GraphNode.with_inputs rewrites the map_over / clone lists with the same mapping it applies to the
+    inputs, every entry looked up in parallel ([m.get(p, p) for p in ...])."""
+    db, rep = ctx.db, ctx.rep
+    gn = db.cls("nodes.graph_node.GraphNode")
+    wi = gn.methods.get("with_inputs")
+    mo = gn.methods.get("map_over")
+    if wi is None or mo is None:
+        raise AnalysisError("GraphNode.with_inputs / map_over vanished")
+    validated = set()
+    for n in walk_local(mo.node):
+        if isinstance(n, ast.Assign):
+            for t in n.targets:
+                if isinstance(t, ast.Attribute) and t.attr in ("_map_over", "_clone"):
+                    validated.add(t.attr)
+    for a in sorted(validated):
+        rewritten = False
+        for n in walk_local(wi.node):
+            if isinstance(n, ast.Assign) and any(isinstance(t, ast.Attribute) and t.attr == a for t in n.targets):
+                v = n.value
+                if isinstance(v, ast.ListComp) and isinstance(v.elt, ast.Call) and isinstance(v.elt.func, ast.Attribute) and v.elt.func.attr == "get" and len(v.elt.args) == 2 and src(v.elt.args[0]) == src(v.elt.args[1]):
+                    # the mapping is the one applied to the inputs
+                    m = v.elt.func.value
+                    calls = [c for c in walk_local(wi.node) if isinstance(c, ast.Call) and isinstance(c.func, ast.Attribute) and c.func.attr == "_with_renamed" and len(c.args) == 2 and src(c.args[1]) == src(m)]
+                    rewritten = bool(calls)
+        rep.add(rule, f"GraphNode.with_inputs:{a}", rewritten, wi.loc(), f"{a} is rewritten with the mapping applied to the inputs" if rewritten else f"{a} is validated against the inputs in map_over but not rewritten in with_inputs: after a rename it names inputs that no longer exist")
 
 
 
